@@ -380,6 +380,10 @@ func (e *Engine) eqLit(a Term, lit string) Term {
 	for i := 0; i < len(lit); i++ {
 		cs = append(cs, Eq(mk(SInt, "sat", a, IntLit(int64(i))), IntLit(int64(lit[i]))))
 	}
+	if len(lit) <= 12 {
+		// mention the literal so that its extensionality axiom is part of the query
+		return Or(Eq(a, e.strConst(lit)), And(cs...))
+	}
 	return And(cs...)
 }
 
